@@ -19,17 +19,19 @@ from rv.core import vio
 from rv.instrument import patch
 from rv.oracles import truth_motion as TM
 from rv.oracles import wgs84 as W
+from rv.workloads import forms
 
 ID = 'C01'
 RULE = ('seeded analytic truth motions stratified over hemisphere (N/S x E/W incl. the +-180 seam), altitude -500..20000 m, speed '
         '0..300 m/s (slow and fast bands), 3-axis attitude sinusoids with a 90-degree phase pair (coning), rates to ~3 rad/s, forces to '
         '~2 g; rate and increment sensors; h in {1,2,5,10,20,50} ms; horizons 5..120 s (quick) and up to a Schuler period (thorough); '
+        'half of the Imu tables with their labelled columns in another order plus an unrelated column, half with stamps on an offset origin; '
         'non-trivial = anything but (lat 55, heading-only rotation, gentle speed); distinct = generator parameters')
 ASSUMPTIONS = ['truth kinematics written by hand from textbook formulas, checked at start-up against 6th-order finite differences '
                '(disagreement => inconclusive)', 'a limit cannot be observed: restated as the bounded halving ladder above (K = 6; the true '
                'ratio of a method of order p >= 1 is <= 2)', 'longitudes compared modulo 360 (the integrator does not wrap; not part of C01)']
 REQUIRED_OBS = ['ladders', 'channels_above_floor', 'southern', 'western', 'near_seam', 'fast', 'slow', 'high_altitude', 'rate_sensor',
-                'increment_sensor', 'integrate_calls_monitored']
+                'increment_sensor', 'integrate_calls_monitored', 'imu_columns_permuted', 'stamps_not_from_zero']
 REQUIRED_CLASSES = {'all': ['rate-N', 'rate-S', 'increment-N', 'increment-S']}
 EPS = np.finfo(float).eps
 STATE = {}
@@ -69,16 +71,26 @@ def cases(seed, tier):
     return out
 
 
-def integrate(m, T, h, sensor, wa=True):
+def integrate(m, T, h, sensor, wa=True, t0=0.0, shuffle=None):
+    """The real pipeline on the exact IMU signal.  t0: origin of the time stamps (the motion is sampled at stamp - t0, so
+    nothing but the labels changes); shuffle: rng -> the Imu table is handed over with its (labelled) columns in another
+    order plus an unrelated column."""
     from pyins import strapdown
     n = int(np.floor(T / h + 1e-9))
-    tt = np.arange(n + 1) * h
+    st = t0 + np.arange(n + 1) * h
+    tt = st - t0
     imu = m.imu(tt, sensor)
+    imu.index = pd.Index(st, name=imu.index.name)
+    if shuffle is not None:
+        imu = forms.shuffle_table(imu, shuffle)
     inc = strapdown.compute_increments_from_imu(imu, sensor)
-    pva = m.trajectory(tt[:1]).iloc[0]
+    pva = m.trajectory(tt[:1]).iloc[0].copy()
+    pva.name = st[0]
     I = strapdown.Integrator(pva, wa)
     I.integrate(inc)
-    return I.trajectory
+    out = I.trajectory.copy()
+    out.index = pd.Index(np.asarray(out.index, float) - t0, name=out.index.name)
+    return out
 
 
 def channel_errors(traj, ref):
@@ -112,8 +124,13 @@ def run_case(case):
     before = patch.COUNTERS['integrate_calls']
     runs = []
     try:
+        frng = np.random.Generator(np.random.PCG64(case['seed'] + 77))
+        t0 = float(frng.choice([0.0, 0.0, 86.5, 3600.0]))
+        shuffled = bool(frng.random() < 0.5)
         for k in range(case['rungs']):
-            runs.append(integrate(m, T, h / 2 ** k, sensor))
+            runs.append(integrate(m, T, h / 2 ** k, sensor, t0=t0, shuffle=np.random.Generator(np.random.PCG64(case['seed'] + 78)) if shuffled else None))
+        obs['imu_columns_permuted'] = int(shuffled)
+        obs['stamps_not_from_zero'] = int(t0 != 0)
     except Exception as e:
         import traceback
         return dict(violations=[vio('exception', f'{type(e).__name__}: {e}', tb=traceback.format_exc()[-1000:])], obs=obs)
